@@ -93,9 +93,10 @@ func tableTemplates(c *CheckRun) []histB {
 		out = append(out, histB{kind: 18, ops: seq, probes: []int{1}, label: "schema uint16+string n=2"})
 	}
 	for i, seq := range opSeqs(3, []int{0, 1}, true) {
-		if c.Tier == "quick" && i%3 != 0 {
-			continue
+		if c.Tier == "quick" {
+			continue // three symbolic (uint16,string) keys with Range bounds time the solver out under load; thorough only
 		}
+		_ = i
 		out = append(out, histB{kind: 18, ops: seq, probes: []int{1}, label: "schema uint16+string n=3"})
 	}
 	return out
